@@ -53,7 +53,7 @@ ANCHORS = [
 ]
 REQUIRED = {'reproducibility_pairs': 150, 'seed_sensitivity_pairs': 100,
             'generator_checks': 30, 'stream_independence_tests': 40,
-            'sweep_seeds_drawn': 20000}
+            'sweep_seeds_drawn': 20000, 'history_independence_pairs': 100}
 
 TIMES = np.array([0.5, 1.2, 2.0])
 
@@ -86,7 +86,8 @@ def ep_error_model(rng, i):
     ybar = rng.uniform(1, 5, 4)
     return (cname + ('/reduced' if i % 8 >= 4 else ''),
             lambda seed: m.sample(p, ybar, n_samples=5, seed=seed), False,
-            True)
+            True,
+            lambda: m.sample(p * 1.3, ybar[::-1] * 2, n_samples=2, seed=5))
 
 
 def ep_population(rng, i):
@@ -117,9 +118,15 @@ def ep_population(rng, i):
         kw['covariates'] = rng.uniform(-1, 1, size=(6, n_cov))
     code = '+'.join(GP.leaf_code(l) for l in leaves)
     has_rand = any(l.kind != 'P' for l in leaves)
+    def vary():
+        kw2 = {'covariates': kw['covariates'][::-1] * 0.5} if kw else {}
+        t2 = np.array(top)
+        t2[:len(t2) - sum(l.n_top(n_ids) - l.n_base(n_ids)
+                          for l in leaves)] *= 1.2
+        m.sample(t2, n_samples=6, seed=11, **kw2)
     return ('population:' + (k if isinstance(k, str) else code),
             lambda seed: m.sample(top, n_samples=6, seed=seed, **kw),
-            k == 'composed', has_rand)
+            k == 'composed', has_rand, vary)
 
 
 def _pm(rng, n_out=2):
@@ -132,7 +139,8 @@ def ep_predictive(rng, i):
     df = bool(i % 2)
     return ('PredictiveModel' + ('/table' if df else ''),
             lambda seed: pm.sample(x, TIMES, n_samples=4, seed=seed,
-                                   return_df=df), True, True)
+                                   return_df=df), True, True,
+            lambda: pm.sample(x * 1.2, TIMES[:2], n_samples=2, seed=3))
 
 
 def ep_pop_predictive(rng, i):
@@ -146,7 +154,8 @@ def ep_pop_predictive(rng, i):
     df = bool(i % 2)
     return ('PopulationPredictiveModel' + ('/table' if df else ''),
             lambda seed: ppm.sample(top, TIMES, n_samples=5, seed=seed,
-                                    return_df=df), True, True)
+                                    return_df=df), True, True,
+            lambda: ppm.sample(top * 1.1, TIMES[1:], n_samples=3, seed=3))
 
 
 def ep_prior_predictive(rng, i):
@@ -156,7 +165,7 @@ def ep_prior_predictive(rng, i):
     ppm = chi.PriorPredictiveModel(pm, prior)
     return ('PriorPredictiveModel',
             lambda seed: ppm.sample(TIMES, n_samples=4, seed=seed), True,
-            True)
+            True, lambda: ppm.sample(TIMES[:1], n_samples=2, seed=3))
 
 
 def _post_pred(rng, pm, shift=0.0):
@@ -170,7 +179,10 @@ def ep_posterior_predictive(rng, i):
     ppm = _post_pred(rng, pm)
     return ('PosteriorPredictiveModel',
             lambda seed: ppm.sample(TIMES, n_samples=5, individual='b',
-                                    seed=seed), True, True)
+                                    seed=seed), True, True,
+            lambda: (ppm.sample(TIMES[:2], n_samples=3, individual='a',
+                                seed=3), ppm.sample(TIMES, n_samples=2,
+                                                    seed=4)))
 
 
 def ep_pam(rng, i):
@@ -179,7 +191,9 @@ def ep_pam(rng, i):
     pam = chi.PAMPredictiveModel(models, [0.3, 0.3, 0.4])
     return ('PAMPredictiveModel',
             lambda seed: pam.sample(TIMES, n_samples=12, individual='a',
-                                    seed=seed), False, True)
+                                    seed=seed), False, True,
+            lambda: pam.sample(TIMES[:2], n_samples=5, individual='b',
+                               seed=3))
 
 
 def ep_initial(rng, i):
@@ -211,7 +225,8 @@ def ep_initial(rng, i):
     return (name,
             lambda seed: post.sample_initial_parameters(n_samples=3,
                                                         seed=seed),
-            False, True)
+            False, True,
+            lambda: post.sample_initial_parameters(n_samples=1, seed=77))
 
 
 ENTRY = [ep_error_model, ep_population, ep_predictive, ep_pop_predictive,
@@ -232,7 +247,14 @@ def _foreign(rng):
 def reproducibility_case(ctx, rng, idx):
     ep = ENTRY[idx % len(ENTRY)]
     try:
-        name, call, gen_documented, has_rand = ep(rng, idx // len(ENTRY))
+        state = rng.bit_generator.state
+        name, call, gen_documented, has_rand, vary = ep(
+            rng, idx // len(ENTRY))
+        # an identical twin object (same generator state) with a history
+        after = rng.bit_generator.state
+        rng.bit_generator.state = state
+        _, call_twin, _, _, vary_twin = ep(rng, idx // len(ENTRY))
+        rng.bit_generator.state = after
     except Exception as e:      # noqa
         ctx.violation_exc('entry_point_setup_raises', e, {})
         return
@@ -259,6 +281,25 @@ def reproducibility_case(ctx, rng, idx):
         ctx.violation_exc('sampling_raises', e, {'entry_point': name}, feats)
         return
     ctx.count('reproducibility_pairs')
+    # an identical object that was used before with OTHER arguments (other
+    # parameters, times, individuals, sample counts, seeds) gives the same
+    try:
+        vary_twin()
+        rt = call_twin(seed)
+        vary()
+        r5 = call(seed)
+        ctx.count('history_independence_pairs')
+        if not _same(r1, rt) or not _same(r1, r5):
+            ctx.violation('same_seed_same_result',
+                          'depends_on_earlier_calls:' + name,
+                          {'fresh': _vals(r1)[:6],
+                           'twin_after_other_calls': _vals(rt)[:6],
+                           'same_object_after_other_calls': _vals(r5)[:6],
+                           'seed': seed}, feats)
+    except Exception as e:      # noqa
+        ctx.violation_exc('sampling_raises', e,
+                          {'entry_point': name, 'step': 'other arguments'},
+                          feats)
     # the same integer handed over as a numpy integer is the same seed
     try:
         np_seed = ([np.int64, np.int32, np.uint32][idx % 3] if
@@ -320,7 +361,7 @@ def seed_sweep_case(ctx, rng, idx):
     k = idx % len(ENTRY)
     ep = ENTRY[k]
     try:
-        name, call, gen_documented, has_rand = ep(rng, idx // len(ENTRY))
+        name, call, gen_documented, has_rand, _ = ep(rng, idx // len(ENTRY))
     except Exception as e:      # noqa
         ctx.violation_exc('entry_point_setup_raises', e, {})
         return
@@ -331,7 +372,7 @@ def seed_sweep_case(ctx, rng, idx):
         ctx.reject('deterministic or discrete entry point')
         return
     cheap = ep in (ep_error_model, ep_population)
-    n = (4000 if cheap else 300) * (1 if ctx.tier == 'quick' else 3)
+    n = (3000 if cheap else 200) * (1 if ctx.tier == 'quick' else 3)
     start = 0 if (idx // len(ENTRY)) % 2 == 0 else int(
         rng.integers(0, 2 ** 31 - n))
     feats = {'entry_point': name, 'n_seeds': n, 'start': start}
@@ -486,5 +527,5 @@ FAMILIES = [
     Family('reproducibility', reproducibility_case, quick=8 * 36,
            thorough=8 * 400),
     Family('independence', independence_case, quick=84, thorough=840),
-    Family('seed_sweep', seed_sweep_case, quick=8 * 12, thorough=8 * 60),
+    Family('seed_sweep', seed_sweep_case, quick=8 * 8, thorough=8 * 60),
 ]
